@@ -4,7 +4,7 @@ REGISTRY = {
     'C06': ['base_core', 'handles'],
     'C02': ['core'],
     'C03': ['base_core', 'handles', 'core', 'event', 'strand', 'when'],
-    'C04': ['base_core', 'strand', 'event'],
+    'C04': ['base_core', 'strand', 'event', 'coro_mutex'],
     'C05': ['thread_pool', 'strand', 'core'],
     'C07': ['strand'],
     'C08': ['thread_pool'],
@@ -12,6 +12,7 @@ REGISTRY = {
     'C10': ['any'],
     'C11': ['wait', 'event', 'base_core'],
     'C12': ['core', 'handles'],
+    'C14': ['coro_mutex'],
     'C16': ['event', 'base_core'],
     'C17': ['fault_sched'],
     'C18': ['fiber_locks'],
@@ -86,8 +87,8 @@ CLAIMS = {
                 'TSAN variants); covered words: callback word unique and shared (SetCallbackImpl, SetResultImpl, ResetImpl, Empty), strand word (Submit, Call, '
                 'Drop), OneShotEvent head (TryAdd, SetImpl, Ready), reference / wait counter.',
         'note': 'A sufficient discipline on the modelled hand-offs, not an exploration of weak-memory executions (level other): trusted meta-theorem that '
-                'owner-only access plus release->acquire ownership transfer is data-race free. Not under the discipline: WhenAny/WhenAll state words (argued '
-                'to move no plain data), coroutine Mutex / SharedMutex words, FairThreadPool and MutexEvent (mutex-protected: monitor proofs of C08/C11), '
+                'owner-only access plus release->acquire ownership transfer is data-race free. coroutine Mutex sender word (lock acquire / unlock release / enqueue release / take-over acquire). Not under the discipline: WhenAny/WhenAll state words (argued '
+                'to move no plain data), coroutine SharedMutex words, FairThreadPool and MutexEvent (mutex-protected: monitor proofs of C08/C11), '
                 'WaitGroup::Count, Injector.',
         'design': 'DESIGN.md 6 C04, 5.F',
     },
@@ -163,6 +164,18 @@ CLAIMS = {
         'note': 'Task::Cancel/Detach/ToFuture/Get and Start are in unit handles when registered; "same Result as the eager twin" is the lemma '
                 'that a started chain runs the C02-verified functions.',
         'design': 'DESIGN.md 6 C12',
+    },
+    'C14': {
+        'text': 'R/G contracts on the coroutine Mutex sender word plus the holder-owned receiver list, for FIFO x Batching x SymmetricTransfer: TryLockAwait / TryLock '
+                '(succeed only when free), AwaitLock (loop contract over both weak CAS branches: returns false <=> acquired, true <=> enqueued with the node linked), '
+                'TryUnlockAwait (releases only if the receiver list is empty and no new waiter is in the word at the release CAS, otherwise keeps the mutex and knows a '
+                'waiter exists), GetHead (takes over all new waiters with one exchange; FIFO reversal closed by a loop invariant over a ghost pool with reversal '
+                'frontier), UnlockHereAwait / UnlockHere / AwaitUnlock / AwaitUnlockOn (every unlock releases xor grants exactly one parked waiter by Submit or '
+                'transfer; the unlocking coroutine is resubmitted exactly once where asked), BatchingPossible, UnlockAwaiter::await_ready, LockAwaiter.',
+        'note': 'SC atomics (orders: C04, asserted in the same jobs); liveness (holders release, executors accept work, a granted coroutine is resumed once) is the '
+                'property\'s own assumption: only the safety shadow "a parked waiter makes the release fail, every unlock grants or releases" is proved; FIFO order through '
+                'the reversal additionally bounded on real memory (N<=6/10); guard classes (UniqueGuard / StickyGuard bookkeeping) are not under contract.',
+        'design': 'DESIGN.md 6 C14, 5.B, A.4',
     },
     'C16': {
         'text': 'R/G contracts on the OneShotEvent head (TryAdd push loop; SetImpl exchange + walk over a ghost pool: every registered job '
